@@ -164,9 +164,58 @@ static int same(hwloc_topology_t x, hwloc_topology_t y, unsigned what, const cha
   return !d;
 }
 
+/* bulk pair: every object of a 100-700 object machine renamed (and half of them with an info value changed): diffs of hundreds of entries whose
+ * XML is far beyond the exporters' initial buffers. Everything in it is representable. */
+static void bulk_case(uint64_t index)
+{
+  static const char *const D[] = { "pack:4 core:8 pu:4", "numa:2 pack:2 l3:2 core:4 pu:2", "pack:2 l2:6 core:2 pu:3", "group:3 pack:3 core:5 pu:4", "pu:120" };
+  const char *desc = D[hv_below(&R, 5)];
+  struct tg_config c; tg_config_default(&c); int stage; hwloc_topology_t A = tl_load_synthetic(desc, &c, &stage);
+  if (!A) { hv_stat("bulk.source_load_failed", 1); return; }
+  hv_desc("bulk pair on \"%s\": every object renamed\n", desc);
+  struct tv_view vw; tv_view_build(A, &vw, 0);
+  unsigned pad = (unsigned)hv_below(&R, 60);
+  for (unsigned i = 0; i < vw.n; i++) { char nm[128]; snprintf(nm, sizeof nm, "original-name-%u-%.*s", i, (int)pad, "xxxxxxxxxxxxxxxxxxxxxxxxxxxxxxxxxxxxxxxxxxxxxxxxxxxxxxxxxxxxxxxx"); free(vw.v[i].o->name); vw.v[i].o->name = strdup(nm); if (i % 2) hwloc_obj_add_info(vw.v[i].o, "Bulk", "before"); }
+  unsigned nobj = vw.n; tv_view_free(&vw);
+  hwloc_topology_t B = NULL, A2 = NULL; if (hwloc_topology_dup(&B, A) != 0 || hwloc_topology_dup(&A2, A) != 0) { hv_viol("setup.dup", "dup failed"); hwloc_topology_destroy(A); if (B) hwloc_topology_destroy(B); return; }
+  unsigned expect = 0;
+  tv_view_build(B, &vw, 0);
+  for (unsigned i = 0; i < vw.n; i++) { char nm[128]; snprintf(nm, sizeof nm, "renamed-%u-%.*s", i, (int)pad, "yyyyyyyyyyyyyyyyyyyyyyyyyyyyyyyyyyyyyyyyyyyyyyyyyyyyyyyyyyyyyyyy"); free(vw.v[i].o->name); vw.v[i].o->name = strdup(nm); expect++;
+    if (i % 2) { struct hwloc_infos_s *inf = &vw.v[i].o->infos; for (unsigned q = 0; q < inf->count; q++) if (!strcmp(inf->array[q].name, "Bulk")) { free(inf->array[q].value); inf->array[q].value = strdup("after"); expect++; } } }
+  tv_view_free(&vw);
+  hwloc_topology_diff_t Df = NULL; hv_ctxkey("bulk:build");
+  int rc = hwloc_topology_diff_build(A, B, 0, &Df); unsigned tc = 0, len = diff_len(Df, &tc);
+  if (rc != 0 || tc || len != expect) hv_viol("bulk.build", "diff_build of %u renames/info changes on %u objects returned %d with %u entries (%u TOO_COMPLEX), expected 0 with %u", expect, nobj, rc, len, tc, expect);
+  else {
+    hv_ctxkey("bulk:diff_xml");
+    char *buf = NULL; int bl = 0; const char *refname = "bulk-ref";
+    if (hwloc_topology_diff_export_xmlbuffer(Df, refname, &buf, &bl) != 0) hv_viol("diff_xml.export_failed", "export of a %u-entry diff failed errno %d", len, errno);
+    else { hv_max("bulk.max_diff_xml_bytes", (uint64_t)bl);
+      if (bl <= 0 || buf[bl - 1] != 0 || strlen(buf) != (size_t)bl - 1) hv_viol("diff_xml.length", "exported length %d but the text has %zu characters (+NUL)", bl, strlen(buf));
+      hwloc_topology_diff_t L = NULL; char *rn = NULL;
+      if (hwloc_topology_diff_load_xmlbuffer(buf, bl, &L, &rn) != 0) hv_viol("diff_xml.load_failed", "own export (%d bytes) of a %u-entry diff could not be loaded", bl, len);
+      else { if (!diff_equal(Df, L)) hv_viol("diff_xml.differs", "the %u-entry diff loaded from its XML export differs (%u entries back)", len, diff_len(L, NULL));
+        if (!streq(refname, rn)) hv_viol("diff_xml.refname", "refname came back as \"%s\"", rn ? rn : "(null)");
+        free(rn); hwloc_topology_diff_destroy(L); hv_stat("bulk.diff_xml_roundtrips", 1); }
+      hwloc_free_xmlbuffer(A, buf); }
+    hv_ctxkey("bulk:apply");
+    if (hwloc_topology_diff_apply(A2, Df, 0) != 0) hv_viol("bulk.apply", "applying the %u-entry diff failed", len);
+    else { hwloc_topology_diff_t again = NULL; int r2 = hwloc_topology_diff_build(A2, B, 0, &again); if (r2 != 0 || again) hv_viol("apply.not_equal", "after applying the bulk diff, diff_build(patched, B) returns %d with %u entries", r2, diff_len(again, NULL)); if (again) hwloc_topology_diff_destroy(again);
+      if (hwloc_topology_diff_apply(A2, Df, HWLOC_TOPOLOGY_DIFF_APPLY_REVERSE) != 0) hv_viol("bulk.reverse", "reverse-applying the bulk diff failed");
+      else { again = NULL; r2 = hwloc_topology_diff_build(A2, A, 0, &again); if (r2 != 0 || again) hv_viol("reverse.not_equal", "after reverse-applying the bulk diff, A is not restored"); if (again) hwloc_topology_diff_destroy(again); } }
+    hv_stat("bulk.pairs", 1); hv_distinct(1, hv_hash_u64(len, hv_hash_str(desc, pad)));
+  }
+  if (Df) hwloc_topology_diff_destroy(Df);
+  hv_ctxkey("bulk:destroy");
+  hwloc_topology_destroy(A); hwloc_topology_destroy(B); hwloc_topology_destroy(A2);
+  hv_ctxkey("%s", "");
+  hv_leak_check();
+}
+
 void hv_case(uint64_t index)
 {
   hv_rng_seed(&R, HV.seed, "c16", index);
+  if (index % 32 == 13) { bulk_case(index); return; }
   struct tg_config c; tg_config_random(&R, &c, 0);
   c.flags &= (HWLOC_TOPOLOGY_FLAG_INCLUDE_DISALLOWED | HWLOC_TOPOLOGY_FLAG_NO_DISTANCES | HWLOC_TOPOLOGY_FLAG_NO_CPUKINDS | HWLOC_TOPOLOGY_FLAG_NO_MEMATTRS);
   if (hv_chance(&R, 2, 3)) c.flags &= HWLOC_TOPOLOGY_FLAG_INCLUDE_DISALLOWED;
